@@ -173,13 +173,28 @@ func jobC07(c *rt.Ctx) {
 			if (pv != nil) != wantRefuse || (!wantRefuse && !ok) {
 				fail("VerifyWithOptions")
 			}
-			all, valid, berr, bpv := func() (a bool, v []bool, e error, pv interface{}) {
-				defer func() { pv = recover() }()
-				a, v, e = VerifyBatch(rt.NewRng(1, "x"), []PublicKey{pub, pub, pub, pub, pub}, [][]byte{digest, digest, digest, digest, digest}, [][]byte{vsig, vsig, vsig, vsig, vsig}, o)
-				return
-			}()
-			if bpv != nil || (berr != nil) != wantRefuse || (!wantRefuse && (!all || len(valid) != 5)) || (wantRefuse && (all || valid != nil)) {
-				fail("VerifyBatch")
+			// every batch size class: empty, below the batching threshold (single-verification path), one
+			// chunk, chunk plus unbatched tail, chunk plus batched tail
+			ns := []int{0, 1, 3, 4, 5}
+			if c.Thorough() || l < 3 || l >= 250 {
+				ns = append(ns, 65, 68)
+			}
+			for _, n := range ns {
+				pubs := make([]PublicKey, n)
+				msgs := make([][]byte, n)
+				sigs := make([][]byte, n)
+				for i := 0; i < n; i++ {
+					pubs[i], msgs[i], sigs[i] = pub, digest, vsig
+				}
+				all, valid, berr, bpv := func() (a bool, v []bool, e error, pv interface{}) {
+					defer func() { pv = recover() }()
+					a, v, e = VerifyBatch(rt.NewRng(1, "x"), pubs, msgs, sigs, o)
+					return
+				}()
+				c.Step(1)
+				if bpv != nil || (berr != nil) != wantRefuse || (!wantRefuse && (!all || len(valid) != n)) || (wantRefuse && (all || valid != nil)) {
+					fail(fmt.Sprintf("VerifyBatch(n=%d)", n))
+				}
 			}
 		}
 	}
@@ -225,7 +240,7 @@ func jobC07(c *rt.Ctx) {
 		// batch sizes 5 (one chunk), 70 (a full chunk plus a batched remainder) and 140 (two full chunks
 		// plus a batched remainder): the wrong-length digest at every chunk's first/last positions
 		type shape struct{ n, pos int }
-		shapes := []shape{{5, 0}, {5, 4}}
+		shapes := []shape{{1, 0}, {3, 2}, {4, 3}, {5, 0}, {5, 4}}
 		if c.Thorough() || l < 3 || (l >= 62 && l <= 66) || l == 32 || l >= 127 {
 			shapes = append(shapes, shape{70, 0}, shape{70, 5}, shape{70, 63}, shape{70, 64}, shape{70, 69}, shape{140, 64}, shape{140, 127}, shape{140, 128}, shape{140, 133}, shape{140, 139})
 		}
